@@ -51,6 +51,10 @@ pub mod serde_json {
     pub broadcast proof fn axiom_str_value(s: Seq<char>) ensures strv(#[trigger] str_value(s)) == Some(s), !is_object(str_value(s)) { admit(); }
     pub trait VxToJson: Sized { spec fn vx_value(self) -> Value; }
     impl VxToJson for std::string::String { open spec fn vx_value(self) -> Value { str_value(self@) } }
+    pub uninterp spec fn bool_value(b: bool) -> Value;
+    pub uninterp spec fn opt_str_value(o: Option<Seq<char>>) -> Value;
+    impl VxToJson for bool { open spec fn vx_value(self) -> Value { bool_value(self) } }
+    impl VxToJson for Option<std::string::String> { open spec fn vx_value(self) -> Value { opt_str_value(match self { Some(x) => Some(x@), None => None }) } }
     pub struct JsonObjBuilder { pub ghost m: vstd::map::Map<Seq<char>, Value> }
     #[verifier::external_body]
     pub fn vx_obj() -> (b: JsonObjBuilder) ensures b.m == vstd::map::Map::<Seq<char>, Value>::empty() { unimplemented!() }
@@ -174,7 +178,9 @@ pub struct Hx { pub ghost appended: Seq<Frame>, pub ghost processed: Seq<Frame>,
                 pub ghost buffered: Seq<Frame>, pub ghost evals: nat,
                 // bookkeeping for the dispatch loop: how many of `appended` were appended inside process_frame calls, and how
                 // many process_frame calls failed
-                pub ghost proc_out: nat, pub ghost failures: nat }
+                pub ghost proc_out: nat, pub ghost failures: nat,
+                // dispatch tasks started by Handler::spawn: (handler id, subscription options, how many frames had been appended then)
+                pub ghost starts: Seq<(Scru128Id, ReadOptions, nat)> }
 #[verifier::external_body] pub struct Store { _p: () }
 #[derive(Debug)] pub struct AppendError;
 impl Store {
@@ -183,10 +189,15 @@ impl Store {
     pub fn append(&self, Tracked(hx): Tracked<&mut Hx>, f: Frame) -> (r: Result<Frame, AppendError>)
         ensures final(hx).appended == old(hx).appended.push(f), final(hx).processed == old(hx).processed, final(hx).incoming == old(hx).incoming,
             final(hx).buffered == old(hx).buffered, final(hx).evals == old(hx).evals,
-            final(hx).proc_out == old(hx).proc_out, final(hx).failures == old(hx).failures,
+            final(hx).proc_out == old(hx).proc_out, final(hx).failures == old(hx).failures, final(hx).starts == old(hx).starts,
             // the frame handed back is the stored one: as given, under its new id (proved of the real append in unit store_ops)
             r matches Ok(fr) ==> fr.topic == f.topic && fr.context_id == f.context_id && fr.hash == f.hash && fr.meta == f.meta,
     { unimplemented!() }
+}
+impl Store {
+    // Store::read as the handler sees it: the subscription that will deliver the ghost sequence hx.incoming (its contract: unit read_ops)
+    #[verifier::external_body]
+    pub fn read(&self, Tracked(hx): Tracked<&Hx>, options: ReadOptions) -> (r: FrameReceiver) { unimplemented!() }
 }
 impl From<AppendError> for Error { #[verifier::external_body] fn from(e: AppendError) -> (r: Error) { unimplemented!() } }
 //@@ default_after_all: store.append( ==> Tracked(hx),
@@ -232,6 +243,8 @@ pub assume_specification<'a> [<&'a str as PartialEq<String>>::eq] (a: &&'a str, 
 // ---- what process_frame calls (ASSUMED contracts): the nu engine, value conversion, the CAS, the output buffer ----
 pub struct Span { pub _p: () }
 pub enum Value { Nothing { internal_span: Span }, Other { internal_span: Span } }     // nu_protocol::Value: only `Nothing` matters here
+pub assume_specification<T, F: FnOnce(T) -> bool> [Option::<T>::is_some_and] (o: Option<T>, f: F) -> (r: bool)
+    ensures match o { Some(x) => call_ensures(f, (x,), r), None => !r };
 pub assume_specification<T, E> [Result::<T, E>::unwrap_or] (r: Result<T, E>, d: T) -> (v: T)
     ensures v == (match r { Ok(x) => x, Err(_) => d });
 #[verifier::external_body] pub struct EngineState { _p: () }
@@ -458,15 +471,17 @@ impl Handler {
     { unimplemented!() }
 
 // ================= dispatch loop of serve (C14) =================
-//@@ slice file=src/handlers/handler.rs fn=serve impl=Handler name=serve_loop
-//@@ from: while let Some(frame) = recver.recv()
-//@@ through_block
+//@@ item file=src/handlers/handler.rs fn=serve impl=Handler as=serve_loop
+//@@ attr: #[verifier::loop_isolation(false)]
+//@@ after_all: fn serve(&mut self, ==> Tracked(hx): Tracked<&mut Hx>,
+//@@ after_all: store.read( ==> Tracked(hx),
 //@@ strip: await
 //@@ json_desugar
 //@@ format_desugar
 //@@ closure_spec: .and_then( ~ get ==> -> (o: Option<&serde_json::Value>) ensures o == (if serde_json::is_object(*$1) && serde_json::obj(*$1).contains_key("handler_id"@) { Some(&serde_json::obj(*$1)["handler_id"@]) } else { None })
 //@@ closure_spec: .and_then( ~ as_str ==> -> (o: Option<&str>) ensures match o { Some(s) => serde_json::strv(*$1) == Some(s@), None => serde_json::strv(*$1) is None }
 //@@ closure_spec: .filter( ==> -> (b: bool) ensures b == ((*$1)@ == id_str(id_u128(self.id)))
+//@@ closure_spec: .is_some_and( ==> -> (b: bool) ensures b == ($1@ == id_str(id_u128(self.id)))
 //@@ loop_spec: while let Some(frame) = recver.recv()
     invariant
         // no frame consumed so far unregistered the handler: it is still active
@@ -494,9 +509,7 @@ impl Handler {
         assert(consumed(old(hx).incoming, hx.incoming).last() == frame);
     }
     let ghost proc0 = hx.processed;
-//@@ header
-#[verifier::loop_isolation(false)]
-fn serve_loop(&mut self, store: &Store, recver: &mut FrameReceiver, Tracked(hx): Tracked<&mut Hx>)
+//@@ spec
     ensures
         final(hx).incoming.len() <= old(hx).incoming.len(),
         // invoked exactly once, in order, for every frame of the subscription that is neither registration traffic of its own
@@ -510,10 +523,8 @@ fn serve_loop(&mut self, store: &Store, recver: &mut FrameReceiver, Tracked(hx):
         // <name>.unregistered frame in its own context carrying its handler id, the id of the frame that stopped it and, for a
         // failure, the error; it is the last thing the instance does. Without a stop it announces nothing.
         stop_announced(old(hx), final(hx), old(self).topic@, old(self).context_id, old(self).id), //# handler.serve.one_unregistered_per_stop
-{
+//@@ prologue
     proof { assert(consumed(hx.incoming, hx.incoming) =~= Seq::<Frame>::empty()); }
-//@@ epilogue
-}
 //@@ end
 
 // ================= stamping loop of process_frame (C06, C14, C15) =================
@@ -575,6 +586,54 @@ fn spawn_duplex_options(start: Frame, task: GeneratorTask) -> (r: ReadOptions)
     options
 }
 //@@ end
+
+impl Clone for ReadOptions { #[verifier::external_body] fn clone(&self) -> (r: ReadOptions) ensures r == *self { unimplemented!() } }
+impl Clone for Handler { #[verifier::external_body] fn clone(&self) -> (r: Handler) ensures r == *self { unimplemented!() } }
+pub mod tokio_h {
+    #[allow(unused_imports)] use super::*;
+    // tokio::spawn(async move { handler.serve(&store, options).await }): the async block is elided; what it captured is recorded
+    // (its body, the dispatch loop, is verified above as serve_loop)
+    #[verifier::external_body]
+    pub fn spawn(Tracked(hx): Tracked<&mut Hx>, handler_id: Scru128Id, options: &ReadOptions)
+        ensures final(hx).starts == old(hx).starts.push((handler_id, *options, old(hx).appended.len())),
+            final(hx).appended == old(hx).appended, final(hx).processed == old(hx).processed, final(hx).incoming == old(hx).incoming,
+    { unimplemented!() }
+}
+spec fn registered_frame(f: Frame, h: &Handler) -> bool {
+    &&& f.topic@ == h.topic@ + ".registered"@ && f.context_id == h.context_id
+    &&& f.meta matches Some(m) && serde_json::is_object(m)
+        && serde_json::obj(m).contains_key("handler_id"@) && serde_json::strv(serde_json::obj(m)["handler_id"@]) == Some(id_str(id_u128(h.id)))
+}
+impl Handler {
+// ================= Handler::spawn, whole function (C16, C14): one dispatch task on the handler's own subscription, then one <name>.registered =================
+//@@ item file=src/handlers/handler.rs fn=spawn impl=Handler ret=r as=spawn_whole
+//@@ strip: async await
+//@@ json_desugar
+//@@ format_desugar
+//@@ elide_arg: tokio::spawn( ==> Tracked(hx), handler.id, &options
+//@@ rewrite: pub async fn spawn( ==> ! fn spawn_whole(
+//@@ rewrite: tokio::spawn( ==> tokio_h::spawn(
+//@@ after_all: fn spawn(&self, ==> Tracked(hx): Tracked<&mut Hx>,
+//@@ spec
+    ensures
+        r is Ok,
+        // exactly one dispatch task, for this handler, subscribed with the options configure_read_options gives (own context,
+        // configured resume point), started BEFORE the announcement is appended ...
+        final(hx).starts.len() == old(hx).starts.len() + 1 && final(hx).starts.drop_last() == old(hx).starts
+            && final(hx).starts.last().0 == self.id && final(hx).starts.last().1.context_id == Some(self.context_id)
+            && final(hx).starts.last().2 == old(hx).appended.len(), //# handler.spawn.one_task_on_own_context_before_announcing
+        // ... and exactly one <name>.registered frame in its own context carrying its handler id
+        final(hx).appended.len() == old(hx).appended.len() + 1 && final(hx).appended.drop_last() == old(hx).appended
+            && registered_frame(final(hx).appended.last(), self), //# handler.spawn.one_registered_announcement
+//@@ prologue
+    broadcast use axiom_display_id, axiom_display_str, serde_json::axiom_str_value;
+    proof {
+        axiom_fmt_req();
+        reveal_strlit("handler_id"); reveal_strlit("tail"); reveal_strlit("last_id");
+        assert("handler_id"@.len() == 10 && "tail"@.len() == 4 && "last_id"@.len() == 7);
+    }
+//@@ end
+}
 
 // ================= handlers::serve::start_handler, whole function (C16) =================
 // a registration that cannot be turned into a handler (invalid script / configuration) is announced by exactly one
